@@ -143,6 +143,11 @@ func (h *memHandle) classify(b []byte, off int64) (string, []int) {
 		return "n/a", []int{}
 	}
 	pcs := t.PiecesOfRange(fi, off, len(b))
+	for _, pc := range pcs {
+		if t.Unsat[pc] { // no content can match the recorded hash of this piece
+			return "bad", pcs
+		}
+	}
 	truth := t.FileData(fi)
 	if off < 0 || off+int64(len(b)) > int64(len(truth)) {
 		return "bad", pcs
@@ -287,6 +292,9 @@ func (s *MemStorage) Names() []string {
 
 // PieceClass classifies the stored content of piece i against ground truth: good / bad / missing.
 func (s *MemStorage) PieceClass(t *Torrent, i int) string {
+	if t.Unsat[i] {
+		return "bad"
+	}
 	ps := int64(i) * int64(t.PieceLen)
 	pe := ps + int64(t.PieceLenOf(i))
 	for fi, f := range t.Files {
